@@ -313,6 +313,9 @@ fn check_project_in(ctx: &Ctx, p: &GenProject, t: &mut Tape, rec: &Rec, dir: &Pa
     if p.sugared_defs > 0 {
         rec.class("projects_with_tuple_or_anonymous_component_statements");
     }
+    if p.recursive_templates > 0 {
+        rec.class("projects_with_template_instantiating_itself");
+    }
     rec.class_n("definitions", reference.definitions as u64);
     let ids: std::collections::BTreeSet<String> = want.keys().map(|s| s.1.clone()).collect();
     let has_cfg_stage = ids.contains("CS0001");
